@@ -20,6 +20,14 @@ class LinWithChild(nn.Linear):
         self.act = nn.ReLU()
 
 
+class LinNoneSlot(nn.Linear):
+    """A true leaf whose optional sub-module slot is registered as None."""
+
+    def __init__(self):
+        super().__init__(3, 2)
+        self.register_module('dropout', None)
+
+
 class Box(nn.Module):
     def __init__(self, kids):
         super().__init__()
@@ -28,7 +36,7 @@ class Box(nn.Module):
 
 
 LEAVES = ['Lin', 'LinNB', 'SubLin', 'LinChild', 'Conv2d', 'Conv1d', 'ReLU',
-          'Frozen', 'HalfFrozen', 'Shared', 'Emb', 'BN']
+          'Frozen', 'HalfFrozen', 'Shared', 'Emb', 'BN', 'NoneSlot']
 CONTAINERS = ['Seq', 'Dict', 'Box']
 
 
@@ -41,6 +49,8 @@ def mk_leaf(kind, shared):
         return SubLinear(3, 2)
     if kind == 'LinChild':
         return LinWithChild()
+    if kind == 'NoneSlot':
+        return LinNoneSlot()
     if kind == 'Conv2d':
         return nn.Conv2d(1, 2, 2)
     if kind == 'Conv1d':
@@ -311,7 +321,7 @@ def main(run: core.Run):
     run.c['transitions'] = run.c.get('evaluations', 0)
     run.c['distinct_nontrivial'] = len(run.distinct.get('nontrivial', ()))
     run.rule = (
-        f'every module tree with <= {maxn} nodes over 12 leaf kinds (Linear '
+        f'every module tree with <= {maxn} nodes over 13 leaf kinds (Linear '
         '+/- bias, Linear subclasses with and without a child, Conv2d, '
         'Conv1d, Embedding, BatchNorm2d, ReLU, frozen and half-frozen Linear,'
         ' one shared instance mounted repeatedly) and 3 container kinds x '
